@@ -68,6 +68,11 @@ fn run_case(s: &str) -> (String, String, String, String) {
     (case, imp, if ok { "ok".into() } else { "FAIL".into() }, tags)
 }
 
+/// ports: the boundary values often, otherwise uniform
+fn port(rng: &mut Rng) -> u64 {
+    if rng.chance(1, 6) { *rng.pick(&[0u64, 0, 1, 80, 65535, 65534]) } else { rng.below(65536) }
+}
+
 fn gen_string(rng: &mut Rng) -> String {
     let v4 = |rng: &mut Rng| {
         format!("{}.{}.{}.{}", rng.below(256), rng.below(256), rng.below(256), rng.below(256))
@@ -82,29 +87,29 @@ fn gen_string(rng: &mut Rng) -> String {
     ];
     let hosts = ["localhost", "example.com", "my-host.local", "a", "x.y.z", "ñandú.es", "服务器"];
     match rng.below(22) {
-        0 | 1 | 2 => format!("{}:{}", v4(rng), rng.below(65536)),
-        3 | 4 => format!("[{}]:{}", rng.pick(&v6s), rng.below(65536)),
+        0 | 1 | 2 => format!("{}:{}", v4(rng), port(rng)),
+        3 | 4 => format!("[{}]:{}", rng.pick(&v6s), port(rng)),
         5 => v4(rng),                                        // missing port
         6 => format!("{}:{}", v4(rng), 65536 + rng.below(10)), // port out of range
-        7 => format!("{}.256.1.1:{}", rng.below(256), rng.below(65536)),
-        8 => format!("{}:{}", rng.pick(&v6s), rng.below(65536)), // missing brackets
-        9 => format!("{}:{}", rng.pick(&hosts), rng.below(65536)),
-        10 => format!("ws://{}:{}/path", rng.pick(&hosts), rng.below(65536)),
+        7 => format!("{}.256.1.1:{}", rng.below(256), port(rng)),
+        8 => format!("{}:{}", rng.pick(&v6s), port(rng)), // missing brackets
+        9 => format!("{}:{}", rng.pick(&hosts), port(rng)),
+        10 => format!("ws://{}:{}/path", rng.pick(&hosts), port(rng)),
         11 => format!("wss://{}/{}", v4(rng), rng.below(100)),
         12 => String::new(),
-        13 => format!(" {}:{}", v4(rng), rng.below(65536)),
-        14 => format!("{}:{} ", v4(rng), rng.below(65536)),
-        15 => format!("0{}.01.1.1:{}", rng.below(10), rng.below(65536)), // leading zeros
+        13 => format!(" {}:{}", v4(rng), port(rng)),
+        14 => format!("{}:{} ", v4(rng), port(rng)),
+        15 => format!("0{}.01.1.1:{}", rng.below(10), port(rng)), // leading zeros
         16 => format!("{}:0{}", v4(rng), rng.below(6000)),
         17 => format!("{}:", v4(rng)),
-        18 => format!(":{}", rng.below(65536)),
+        18 => format!(":{}", port(rng)),
         19 => format!("[{}]", rng.pick(&v6s)),
         20 => {
             let n = rng.below(12) as usize;
             let alphabet: Vec<char> = "0123456789.:[]%abcdefx/ -é".chars().collect();
             (0..n).map(|_| *rng.pick(&alphabet)).collect()
         }
-        _ => format!("{}:{}:{}", v4(rng), rng.below(65536), rng.below(10)),
+        _ => format!("{}:{}:{}", v4(rng), port(rng), rng.below(10)),
     }
 }
 
@@ -113,7 +118,7 @@ fn typed_conversions(rng: &mut Rng, n: u64) -> (u64, u64, String) {
     let mut bad = 0;
     let mut first = String::new();
     for _ in 0..n {
-        let port = rng.below(65536) as u16;
+        let port = port(rng) as u16;
         let v4 = Ipv4Addr::from((rng.next() as u32).to_be_bytes());
         let v6 = Ipv6Addr::from((((rng.next() as u128) << 64) | rng.next() as u128).to_be_bytes());
         let a4 = SocketAddrV4::new(v4, port);
